@@ -25,15 +25,26 @@ TRUSTED = ["encoding/gob round trip: dec (enc i) = Some i (section hypothesis)",
            "the real Store object holds no mailbox state between calls (sampled by the correspondence run: state before = state after every reopen)"]
 ASSUMPTIONS = ["no I/O errors", "one operation at a time per mailbox (C09 covers interleavings)",
                "fewer than 10000 deliveries per second per process (the id counter wraps at 10000)"]
-NOT_PROVED = []
+NOT_PROVED = ["removed_stay_gone_stmt (Proofs/FileDiskWitness.v): the unguarded statement 'a removed id never names a message of the mailbox again' is FALSE in the model and in the code (removed_stay_gone_refuted, open finding K-C10-id-reissued-after-restart); proved instead: removed_stay_gone_partial under never_reissued"]
 
 
 def nontrivial(kind, ins, outs):
+    if kind == "reissue":
+        return True
     return kind == "hist" and ("R" in ins[2].split(",") or "X" in ins[2].split(",")) and any(o.startswith("res=") and "k" in o for o in outs)
 
 
 def project(kind, ins, outs):
-    return [o for o in outs if not o.startswith("retries=")]
+    if kind == "hist":
+        return [o for o in outs if not o.startswith("retries=") and not o.startswith("reissued=")]
+    return outs
+
+
+def match_known(case_line, reason):
+    # only the reissue of the id of a message that is gone; every other durability failure stays a VIOLATION
+    if reason == "fail:id-of-removed-message-reissued":
+        return "K-C10-id-reissued-after-restart"
+    return None
 
 
 def shrink_candidates(inp):
